@@ -217,6 +217,14 @@ def run_case(case, res):
                 builds = [("ref", V, Q, WQ)]
                 if oi[0] == "ok" and rep == "frac":
                     U1, P1, W1 = lib.exact_curve(c0)
+                    # the literal "undoes a previous knot_insert": remove on the very object that was refined
+                    res.transition()
+                    ol = lib.outcome(c0.knot_remove, list(nodes))
+                    if ol[0] != "ok" or lib.exact_kv(c0.knotvector) != U or not lib.curve_pw(c0).same(rb.denote(U, P, W, p)) or \
+                            (W is None and lib.exact_curve(c0)[1] != list(P)):
+                        res.violation("not_restored", f"U={U} P={P} W={W}: knot_insert({nodes}) then knot_remove({nodes}) on the same "
+                                      f"object gave {ol[:2] if ol[0] != 'ok' else lib.exact_curve(c0)}", how="live", rational=W is not None,
+                                      tol="default")
                     if (U1, P1, W1) != (V, Q, WQ):
                         builds.append(("lib", U1, P1, W1))  # differs from the reference refinement (C04's business): test both
                     else:
